@@ -229,15 +229,20 @@ def replay_load(model, fkind, entry):
     for text, st in tries:
         exp_ssc = None
         try:
-            if fkind == "TextIOWrapper" and entry == "load":
+            if fkind == "TextIOWrapper" and entry in ("load", "open", "open_with_detected_encoding"):
                 d = tempfile.mkdtemp(prefix="pyvc-replay-")
                 nm = name if isinstance(name, str) and name and "/" not in name and "\x00" not in name else "chart.txt"
                 p = os.path.join(d, nm)
                 try:
                     with open(p, "w", encoding="utf-8") as fh:
                         fh.write(text)
-                    with open(p, "r", encoding="utf-8") as fh:
-                        got = simfile.load(fh, strict=st)
+                    if entry == "load":
+                        with open(p, "r", encoding="utf-8") as fh:
+                            got = simfile.load(fh, strict=st)
+                    elif entry == "open":
+                        got = simfile.open(p, strict=st)
+                    else:
+                        got = simfile.open_with_detected_encoding(p, strict=st)[0]
                 finally:
                     import shutil
                     shutil.rmtree(d, ignore_errors=True)
@@ -277,7 +282,12 @@ def replay_load(model, fkind, entry):
             return dict(reproduced=True, input=dict(text=text, strict=st, name=name), detail=f"the loader raised {got!r} on a text the tokenizer accepts")
         if exp_ssc is None:
             exp_ssc = bool(ps) and ps[0][0].upper() == "VERSION"
-        exp = OR.load_ssc(ps) if exp_ssc else OR.load_sm(ps)
+        try:
+            exp = OR.load_ssc(ps) if exp_ssc else OR.load_sm(ps)
+        except ValueError as ve:
+            # the documented rules refuse this text in the format its name prescribes; the loader accepted it
+            return dict(reproduced=True, input=dict(text=text, strict=st, name=name),
+                        detail=f"loaded as {type(got).__name__} although the {'SSC' if exp_ssc else 'SM'} rules refuse the text ({ve})")
         from collections import OrderedDict
         gotv = (OrderedDict(got.items()), [OrderedDict(c.items()) for c in got.charts] if exp_ssc else [(OrderedDict(c.items()), c.extradata) for c in got.charts])
         if type(got).__name__ != ("SSCSimfile" if exp_ssc else "SMSimfile") or gotv != exp:
@@ -352,7 +362,9 @@ def witness_search(tier, seed):
         for fk, en, nm in (("StringIO", "load", None), ("lines", "load", None), ("string", "loads", None),
                            ("string", "ctor-string", None), ("StringIO", "ctor-file", None),
                            ("TextIOWrapper", "load", "a.txt"), ("TextIOWrapper", "load", "b.SM"), ("TextIOWrapper", "load", "c.ssc"),
-                           ("TextIOWrapper", "load", "d.sm.bak"), ("TextIOWrapper", "load", "ssc")):
+                           ("TextIOWrapper", "load", "d.sm.bak"), ("TextIOWrapper", "load", "ssc"),
+                           ("TextIOWrapper", "open", "e.SM"), ("TextIOWrapper", "open", "f.Ssc"), ("TextIOWrapper", "open_with_detected_encoding", "g.SSC"),
+                           ("TextIOWrapper", "open", "h.txt")):
             r = replay_load(dict(content=stray + text, string=stray + text, strict=strict, name=nm), fk, en)
             if r.get("reproduced"):
                 r["entry"] = [fk, en, nm]
